@@ -46,7 +46,7 @@ def run_impl(lines):
         if m in (20, 120, 220, 221, 222):
             layp.append(i)
             continue
-        groups["ir" if m == 1 else "grp" if m in (4, 204) else "rt" if 10 <= m <= 19 else "prog"].append(i)
+        groups["ir" if m == 1 else "grp" if m in (4, 204) else "rt" if (10 <= m <= 19 or m == 21) else "prog"].append(i)
     if layp:
         res = layout_probe([lines[i] for i in layp])
         for j, i in enumerate(layp):
@@ -266,6 +266,55 @@ def life_cases(rng, tier, with_borrowed=True):
             elif c == 12: kinds[h] = "D"; kinds.append("G1")
         cases.append("106 | " + " ; ".join(" ".join(map(str, o)) for o in ops))
     return cases, {"lifecycle_histories": len(cases)}
+
+
+def box_cases(rng, tier):
+    """'21 <elem> | ops' histories over a pool of CBox / CSliceBox values (harness/rt/src/m_box.rs, coq/model/Boxed.v)"""
+    cases = ["21 0 | 0 5 ; 4 0 ; 5 0 0 9 ; 6 0 ; 7 1", "21 0 | 3 1 2 3 ; 4 0 ; 5 0 1 7 ; 5 0 3 8 ; 6 0 ; 6 1", "21 0 | 3 ; 4 0 ; 5 0 0 1 ; 7 0", "21 1 | 3 0 0 0 ; 6 0 ; 7 1",
+             "21 1 | 0 0 ; 8 0", "21 0 | 1 4 ; 8 0 ; 8 0", "21 2 | 2 77 ; 6 0 ; 6 1 ; 4 2", "21 3 | 3 1 70000 ; 5 0 1 5 ; 4 0", "21 1 | 3 ; 7 0", "21 0 | 3 5 ; 6 0"]
+    n = 400 if tier == "quick" else 8000
+    for k in range(n):
+        elem = k % 4
+        vmax = 0 if elem == 1 else (2 ** 24 - 1 if elem == 3 else 10 ** 6)
+        val = lambda: rng.range(0, vmax)
+        ops, kinds, lens = [], [], []      # kinds: B OB S OS D
+        for _ in range(rng.range(1, 22)):
+            live = [i for i, x in enumerate(kinds) if x != "D"]
+            r = rng.below(100)
+            if not live or r < 22:
+                c = rng.choice([0, 1, 2, 3, 3])
+                if c == 3:
+                    m = rng.choice([0, 0, 1, 2, 3, 5])
+                    ops.append([3] + [val() for _ in range(m)]); kinds.append("S"); lens.append(m)
+                else:
+                    ops.append([c, val()]); kinds.append("B"); lens.append(1)
+                continue
+            if r < 30:      # ill-targeted stream: any op on any slot (dead, wrong kind, one past the end)
+                c = rng.choice([4, 5, 6, 7, 8])
+                h = rng.range(0, len(kinds))
+                ops.append([c, h] + ([rng.range(0, 3), val()] if c == 5 else []))
+                if h < len(kinds) and kinds[h] != "D":
+                    kd = kinds[h]
+                    if c == 6: kinds[h] = "D"; kinds.append("O" + kd.lstrip("O")); lens.append(lens[h])
+                    elif c == 7 or (c == 8 and kd == "B"): kinds[h] = "D"
+                continue
+            h = rng.choice(live)
+            kd = kinds[h]
+            if kd == "B":
+                c = rng.choice([4, 5, 5, 6, 7, 8])
+            elif kd == "S":
+                c = rng.choice([4, 5, 5, 5, 6, 7])
+            else:
+                c = rng.choice([6, 7, 7])
+            if c == 5:
+                i = rng.range(0, max(0, lens[h] - 1)) if rng.chance(5, 6) else lens[h] + rng.range(0, 2)
+                ops.append([5, h, i, val()])
+            else:
+                ops.append([c, h])
+            if c == 6: kinds[h] = "D"; kinds.append("O" + kd.lstrip("O")); lens.append(lens[h])
+            elif c in (7, 8): kinds[h] = "D"
+        cases.append("21 %d | %s" % (elem, " ; ".join(" ".join(map(str, o)) for o in ops)))
+    return cases, {"box_histories": len(cases)}
 
 
 def cast_cases(rng, tier):
